@@ -8,19 +8,19 @@ Property theorems only. Model: `Model/Reply.lean` (`IO.send_reply`, `IO.recv_rep
 namespace Slimta.C17
 open Slimta Slimta.Reply
 
-/-- **Round trip and exact consumption (wire level).** Any three-digit code and any message bytes
+/-- **Round trip and exact consumption (wire level).** Any reply code (three digits, the first in 1..5) and any message bytes
     (valid UTF-8 after CRLF normalisation, i.e. any encoded text), written by `send_reply`, followed
     by any pipelined bytes, delivered as any `recv_buffer` prefix plus any non-empty `recv()`
     results: `recv_reply` returns that code and the CRLF-normalised text, and what is left
     (`recv_buffer` plus unread data) is exactly the pipelined successor. -/
-theorem reply_roundtrip (c : Bytes) (hc : IsCode c) (m : Bytes) (hu : utf8Ok (normCRLF m) = true)
+theorem reply_roundtrip (c : Bytes) (hc : IsCode c) (hk : codeOk c = true) (m : Bytes) (hu : utf8Ok (normCRLF m) = true)
     (next buf0 : Bytes) (segs : List Bytes) (hne : ∀ s ∈ segs, s ≠ [])
     (hs : buf0 ++ segs.flatten = encode c m ++ next) :
     ∃ r, recvRun buf0 segs = .ok r ∧ r.code = c ∧ r.body = normCRLF m ∧
       r.recvBuffer ++ r.unread.flatten = next := by
   have hscan : scan none [] (buf0 ++ segs.flatten) = .done c (normCRLF m) next := by
     rw [hs]
-    have := scan_encodeLines c hc (allLines (m ++ CRLF)) (allLines_crlf_ne_nil m) [] none (Or.inl rfl)
+    have := scan_encodeLines c hc hk (allLines (m ++ CRLF)) (allLines_crlf_ne_nil m) [] none (Or.inl rfl)
       (allLines_noLF _) (by simpa [joinCRLF_allLines] using hu) next
     simpa [encode, joinCRLF_allLines] using this
   have := recvLoop_spec segs none [] buf0 hne
@@ -125,6 +125,26 @@ theorem bad_reply_invalid_utf8 (c : Bytes) (hc : IsCode c) (t : Bytes) (ht : ∀
   have hscan : scan none [] (buf0 ++ segs.flatten) = .bad rest := by
     rw [hs, scan_step none [] _ _ hl, p1]
     simp [joinCRLF, hu]
+  have := recvLoop_spec segs none [] buf0 hne
+  rw [hscan] at this
+  exact this
+
+/-- **Malformed: a code outside 100..599.** A syntactically complete reply whose three digits do not
+    start with 1..5 raises `BadReply` under every delivery (it is consumed whole). -/
+theorem bad_reply_code_out_of_range (c : Bytes) (hc : IsCode c) (hk : codeOk c = false) (t : Bytes) (ht : ∀ b ∈ t, b ≠ 10)
+    (rest buf0 : Bytes) (segs : List Bytes) (hne : ∀ s ∈ segs, s ≠ [])
+    (hs : buf0 ++ segs.flatten = c ++ [32] ++ t ++ CRLF ++ rest) :
+    ∃ rb, recvRun buf0 segs = .error (.badReply, rb) := by
+  have hl : ∀ b ∈ c ++ [32] ++ t, b ≠ 10 := by
+    intro b hb; simp at hb
+    rcases hb with hb | hb | hb
+    · exact code_noLF c hc b hb
+    · subst hb; decide
+    · exact ht b hb
+  have p1 : parseReplyLine (c ++ [32] ++ t) = some (c, 32, t) := parseReplyLine_ok c hc 32 (by simp) t
+  have hscan : scan none [] (buf0 ++ segs.flatten) = .bad rest := by
+    rw [hs, scan_step none [] _ _ hl, p1]
+    simp [hk]
   have := recvLoop_spec segs none [] buf0 hne
   rw [hscan] at this
   exact this
